@@ -209,9 +209,24 @@ static void mudlib_error_handler (const char *err, int catch_flag) {
     }
 }
 
-void error_handler (const char *err) {
-  int eval_cost_spent;
+/* a "Too long evaluation" is on its way to a context that is not a catch.  Static:
+ * an error raised while that one is being reported (by the master's error_handler())
+ * leaves through its own longjmp() and must not lose the fact. */
+static int eval_cost_spent;
 
+static void leave_spent_evaluation (void) {
+  if (eval_cost_spent)
+    {
+      eval_cost_spent = 0;
+      /* a context saved above the bottom of the control stack was saved by a running
+       * evaluation: that one gets one tick, so the error is raised again at its next
+       * instruction.  The driver's own entries arm eval_cost themselves. */
+      if (current_error_context && current_error_context->save_csp >= control_stack)
+        eval_cost = 1;
+    }
+}
+
+void error_handler (const char *err) {
   /* in case we're going to longjmp() from load_object or destruct_object */
   reset_destruct_object_limits();
   reset_load_object_limits();
@@ -263,8 +278,8 @@ void error_handler (const char *err) {
    * budget (a loop around a caught error whose report by the master runs out of
    * budget would never end).  It gets what it takes to reach its next
    * instruction, where the error is raised again, outside the safe_apply. */
-  eval_cost_spent = get_error_state (ES_MAX_EVAL_COST) && current_error_context &&
-    current_error_context->save_csp >= control_stack;
+  if (get_error_state (ES_MAX_EVAL_COST))
+    eval_cost_spent = 1;
   clear_error_state ();
   if (current_error_context)
     set_error_state (current_error_context->save_error_state);
@@ -275,8 +290,7 @@ void error_handler (const char *err) {
       debug_message_with_location (err);
       dump_trace (g_trace_flag);
 
-      if (eval_cost_spent)
-        eval_cost = 1;
+      leave_spent_evaluation ();
       if (current_error_context)
         longjmp (current_error_context->context, 1);
       fatal ("failed longjmp() or no error context for error.");
@@ -313,8 +327,7 @@ void error_handler (const char *err) {
 
   in_error = 0;
 
-  if (eval_cost_spent)
-    eval_cost = 1;
+  leave_spent_evaluation ();
   if (current_error_context)
     longjmp (current_error_context->context, 1);
   fatal ("failed longjmp() or no error context for error.");
